@@ -30,7 +30,9 @@ RULE = ("part 1 exhaustive over scenarios = (services in the configuration, Comp
         "core.takeover wired there; x {no holder, each of 5 holders} x every member with default-style arguments and with "
         "every other value of its enum-typed / optional parameters (from the signatures); then again after each connected "
         "protocol published volume/output devices/focus/play state with exactly the published values as arguments (twice, "
-        "and under a takeover); non-trivial = the call is not served by the first connected protocol of the plain "
+        "and under a takeover), and again while the implementations of one connected protocol raise NotSupportedError / "
+        "ProtocolError when called (the error must reach the caller, nobody else may execute the call); Companion's REAL "
+        "connect callable against a fake device, every request of its connect sequence rejected in turn; non-trivial = the call is not served by the first connected protocol of the plain "
         "priority list. part 2: random histories of takeover/release (>=30% failing takeovers by construction) interleaved "
         "with state updates; non-trivial = history with at least one failing takeover and one release; "
         "distinct = (scenario, holder, member incl. argument variant) / (scenario, holder, publisher) resp. (scenario, op list)")
@@ -83,8 +85,10 @@ def scenario(services=None, fail=(), **kw):
 
 
 def scen_key(sc):
-    return "%ssvc=%s;cc=%d;v=%d;tun=%d;uni=%d;txt=%d;fail=%s" % (
+    return "%s%ssvc=%s;cc=%d;v=%d;tun=%d;uni=%d;txt=%d;fail=%s" % (
         ("dev=%s;" % sc["profile"]) if sc.get("profile") else "",
+        ("companion-real-connect,rejects=%s;" % ("+".join(sc["companion_device"].get("reject", [])) or "-"))
+        if sc.get("companion_device") else "",
         "+".join(sc["services"]), sc["companion_creds"], sc["video"], sc["tunnel"], sc["unified"], sc.get("txt", False),
         ".".join(map(str, sc["fail"])) or "-")
 
@@ -97,6 +101,22 @@ def device_scenario(profile, services=None, **kw):
     have = profile_protocols(profile)
     return scenario(have if services is None else [p for p in have if p in services], profile=profile,
                     video=DEVICE_PROFILES[profile]["video"], **kw)
+
+
+def real_connect_scenarios(patches):
+    """Companion's REAL connect callable against a fake device: every protocol set with Companion
+    (and the scanned devices that have it) x {the device answers everything, it rejects one of
+    the requests the connect sequence sends}.  The requests are discovered by running it once."""
+    probe = World(patches, scenario(["Companion"], companion_device={"reject": []}))
+    requests = list(probe.built.companion_requests)
+    out = []
+    bases = [dict(services=S) for S in subsets() if "Companion" in S]
+    for rej in [[]] + [[r] for r in requests]:
+        for b in bases:
+            out.append(scenario(companion_device={"reject": rej}, **b))
+        for profile in ("appletv4k", "homepod"):
+            out.append(device_scenario(profile, companion_device={"reject": rej}))
+    return out
 
 
 def device_scenarios():
@@ -158,6 +178,7 @@ def all_scenarios(patches, rng=None, extra=0):
     out += [scenario(S, video=False) for S in subsets() if "AirPlay" in S]
     out += [scenario(S, txt=True) for S in subsets()]          # services announcing real TXT records
     out += device_scenarios()                                  # real devices as the scanner sees them
+    out += real_connect_scenarios(patches)                     # Companion's real connect against a fake device
     out += failing_connect_scenarios()
     for cfg in path_configs():
         n = len(World(patches, scenario(**cfg)).built.queue)
@@ -187,10 +208,14 @@ class Patches:
         from pyatv import interface
         from tools.gen.c01 import build_world, public_members
 
+        import logging
+
+        logging.getLogger("pyatv").addHandler(logging.NullHandler())   # expected error paths are logged by pyatv: keep stderr quiet
         self.loop = loop
         self.log = []
         self.owner = {}          # id(instance) -> protocol name (current world)
         self.saved = []
+        self.raising = {}        # protocol name -> pyatv.exceptions class name its implementations raise when called
         self.genuine = {}        # (class, member) -> bool: the oracle's own "actually implements"
         self.done = set()
         self.members = {}        # iface name -> [member names]
@@ -251,8 +276,15 @@ class Patches:
         log, owner, iface = self.log, self.owner, base.__name__
         ret = 10.0 if name == "volume" else None
 
+        raising = self.raising
+
         def note(self_):
-            log.append((owner.get(id(self_), "?unregistered"), iface, name))
+            who = owner.get(id(self_), "?unregistered")
+            log.append((who, iface, name))
+            if who in raising:          # the implementation itself fails at call time
+                from pyatv import exceptions
+
+                raise getattr(exceptions, raising[who])("raised by the implementation of " + who)
             return ret
 
         if isinstance(original, property):
@@ -314,6 +346,16 @@ class World:
         if self.atv is not None:
             self.relayers = {b.__name__: self.atv._interfaces[b] for b in patches.iface_classes}
         self.env = None
+
+    @property
+    def power_known(self):
+        """input of the model: Companion's real connect learnt the power state (a fact about the fake
+        device's answers, read from the real CompanionPower object)"""
+        from pyatv import interface
+
+        sd = self.connected.get("Companion")
+        power = sd.interfaces.get(interface.Power) if sd else None
+        return bool(getattr(power, "supports_power_updates", False))
 
     def genuine(self, proto, iface, name):
         sd = self.connected.get(proto)
@@ -451,7 +493,7 @@ class World:
         except exceptions.NotSupportedError:
             return "!" if not log else "!after:" + "+".join(r[0] for r in log)
         except Exception as e:  # observation, not a crash
-            return "err:" + type(e).__name__
+            return "err:" + type(e).__name__ + ("@" + "+".join(r[0] for r in log) if log else "")
         if not log:
             return "dropped"
         if len(log) > 1 or log[0][1:] != (iface, name):
@@ -532,7 +574,9 @@ def judge(ctx, world, holders, observed, case, kind):
                 ctx.note("oracle:play_url-gate-closed-not-judged")
                 continue
         if got != want:
-            how = "" if not case.get("env") else f" after {case['env']['publisher']} reported the values then passed as arguments"
+            how = "" if not case.get("env") else (
+                f" while the implementations of {case['env']['publisher']} raise {case['env']['raises']} when called"
+                if case["env"].get("raises") else f" after {case['env']['publisher']} reported the values then passed as arguments")
             ctx.fail(f"{kind}:{key}:{scen_key(world.sc)}:{holders.get(iface) or '-'}" + (":env" if case.get("env") else ""),
                      dict(case, member=key), got, want,
                      f"{key} with {'+'.join(S)} connected ({scen_key(world.sc)}), holder {holders.get(iface) or 'none'}{how}: "
@@ -562,15 +606,26 @@ def run_static(ctx, patches, scenarios, full_env):
         handlers = sorted(p.name for p in getattr(world.atv, "_protocol_handlers", {}))
         if handlers and handlers != sorted(world.S):
             ctx.disagree({"scenario": sc}, handlers, sorted(world.S), where="connected set (facade _protocol_handlers vs construction)")
-        ctx.note("scenario:" + ("native" if not (sc["tunnel"] or sc["unified"]) else "tunnel/unified")
+        ctx.note("scenario:" + ("companion-real-connect" if sc.get("companion_device") else "device" if sc.get("profile")
+                                else "native" if not (sc["tunnel"] or sc["unified"]) else "tunnel/unified")
                  + ("+failing-connect" if world.fail else ""))
-        rounds = [(t, None) for t in [None] + TEXT_ORDER]
-        pubs = world.S if (full_env or not world.fail) else world.S[:1]
+        # quick tier: scenarios with failing connects / Companion's real connect get a lighter treatment
+        light = (not full_env) and bool(world.fail or sc.get("companion_device"))
+        rounds = [(t, None) for t in ([None, TEXT_ORDER[len(scen_key(sc)) % 5]] if light else [None] + TEXT_ORDER)]
+        pubs = world.S[:1] if light else world.S
         for k, pub in enumerate(pubs):
             rounds.append((None, (pub, k)))
             rounds.append((None, (pub, k)))                      # the same call a second time
             rounds.append((TEXT_ORDER[(k + 1) % 5], (pub, k)))   # and while somebody holds a takeover
-        for t, pub in rounds:
+        rounds = [r + (None,) for r in rounds]
+        # the implementations of one connected protocol fail at call time (NotSupportedError /
+        # ProtocolError raised by their own code): the error must reach the caller and no other
+        # protocol may execute the call
+        for k, who in enumerate([] if light else world.S):
+            rounds.append((None, None, (who, "NotSupportedError")))
+            rounds.append((None, None, (who, "ProtocolError")))
+            rounds.append((TEXT_ORDER[(k + 2) % 5], None, (who, "NotSupportedError")))
+        for t, pub, raises in rounds:
             release = None
             if pub is not None:
                 world.publish(*pub)
@@ -579,18 +634,30 @@ def run_static(ctx, patches, scenarios, full_env):
                 if status != "ok":
                     ctx.disagree({"scenario": sc, "t": t}, status, "ok", where="takeover of all interfaces")
                     continue
-            table = world.table(variants=pub is None)
+            if raises is not None:
+                patches.raising[raises[0]] = raises[1]
+            try:
+                table = world.table(variants=pub is None and raises is None)
+            finally:
+                patches.raising.clear()
             if release:
                 release()
             env = None if pub is None else {"publisher": pub[0], "volume": world.env["volume"]}
+            if raises is not None:
+                # normal form: "X" = executed by X alone and X's error reached the caller
+                who, kind = raises
+                raw = "!after:" + who if kind == "NotSupportedError" else f"err:{kind}@{who}"
+                table = {k: (who if v == raw else ("error-swallowed:" + who if v == who else v)) for k, v in table.items()}
+                env = {"publisher": who, "volume": None, "raises": kind}
             obs.append((world, t, env, table))
+        world.light = light
     lines = sorted({f"table {set_bits(w.S)} {t or '-'} {1 if w.video else 0}" for w, t, _e, _tb in obs})
     answers = dict(zip(lines, ctx.lean(lines)))
     for world, t, env, table in obs:
         S, sc = world.S, world.sc
         model = model_view(answers[f"table {set_bits(S)} {t or '-'} {1 if world.video else 0}"])
         model = {k: model.get(k.split("[")[0]) for k in table}     # the model's routing does not depend on arguments
-        case = {"kind": "call", "scenario": sc, "t": t, "env": env}
+        case = {"kind": "call", "scenario": sc, "t": t, "env": env, "light": getattr(world, "light", False)}
         if model != table:
             diff = {k: (table.get(k), model.get(k)) for k in set(table) | set(model) if table.get(k) != model.get(k)}
             ctx.disagree(case, {k: v[0] for k, v in diff.items()}, {k: v[1] for k, v in diff.items()}, where="routing table")
@@ -599,9 +666,9 @@ def run_static(ctx, patches, scenarios, full_env):
         plain = next(p for p in TEXT_ORDER if p in S)
         if env is not None:
             # state-update rounds: one case per round (every member was invoked and judged above)
-            ctx.case([scen_key(sc), t, env["publisher"], "all-members"], True)
-            ctx.note("calls-after-state-update", len(table))
-            ctx.note("args:reused-from-state-update")
+            ctx.case([scen_key(sc), t, env["publisher"], env.get("raises"), "all-members"], True)
+            ctx.note("calls-while-implementation-raises" if env.get("raises") else "calls-after-state-update", len(table))
+            ctx.note("args:default" if env.get("raises") else "args:reused-from-state-update")
             continue
         for key, got in table.items():
             nontrivial = got != plain
@@ -737,7 +804,7 @@ def compare_history(ctx, S, ops, obs, answers):
         ctx.validated(1 + len(table))
 
 
-def run(ctx, only_static=None, only_history=None):
+def run(ctx, only_static=None, only_history=None, full_env=None):
     loop = asyncio.new_event_loop()
     asyncio.set_event_loop(loop)
     patches = Patches(loop)
@@ -749,7 +816,8 @@ def run(ctx, only_static=None, only_history=None):
             else:
                 scenarios = all_scenarios(patches, rng, extra=ctx.scale(40, 400))
                 ctx.exhaustive = True
-            run_static(ctx, patches, scenarios, full_env=ctx.thorough or only_static is not None)
+            run_static(ctx, patches, scenarios,
+                       full_env=(ctx.thorough or only_static is not None) if full_env is None else full_env)
         if only_static is None:
             if only_history is not None:
                 hist = only_history
@@ -758,6 +826,9 @@ def run(ctx, only_static=None, only_history=None):
                 n = ctx.scale(40, 160)
                 maxlen = ctx.scale(12, 40)
                 pool = all_scenarios(patches)
+                first31 = pool[:31]
+                pool = [sc for sc in pool if (lambda w: not w.connect_error and w.S)(World(patches, sc))]   # a device object exists
+                pool = first31 + [sc for sc in pool if sc not in first31]
                 hist = []
                 for k in range(n):
                     sc = pool[30] if k % 5 == 0 else (rng.choice(pool[:31]) if k % 5 < 3 else rng.choice(pool))
@@ -792,7 +863,8 @@ def replay(ctx, failure):
         ops = case["ops"][: case["step"] + 1]
         run(c2, only_history=[(case["scenario"], ops)])
     else:
-        run(c2, only_static=[case["scenario"]])
+        # twice in the same process: state kept across device objects (class level / module level) is in play
+        run(c2, only_static=[case["scenario"], case["scenario"]], full_env=not case.get("light", False))
     return bool(c2.failures)
 
 
